@@ -238,3 +238,25 @@ CHECKS["C11"] = {
         {"name": "run.cli.lowlatency", "files": C11F, "fn": "VerifH_C11_lowlatency", "workers": 16, "params_quick": {"ITERS": 3}, "params_thorough": {"ITERS": 4}, "reach": ["ran"]},
     ],
 }
+
+CLIP = [G + "cli_proc.go"] + CLI
+CHECKS["C10"] = {
+    "technique": "real fMP4 stream/track processors, time converter and routine pool as engine threads on harness-built fragments with symbolic base times, durations and PTS offsets",
+    "bounds": {"quick": {"tracks": "H264 video + optional Opus audio at 48000/44100", "segments x fragments x samples": "1 x 1..2 x 1..2", "base times": "[0, 2^40]", "durations": "[0, 2^20] / [0, 2^16]", "PTS offsets": "[-2^16, 2^16]",
+                         "PROGRAM-DATE-TIME": "present or not per segment"},
+               "thorough": {"segments x fragments x samples": "1..2 x 1..2 x 1..2"}},
+    "assumptions": ["fmp4 Init/Part Marshal+Unmarshal are mutually inverse (symbolically an identity on the value; natively the real serialisation)", "PartSample.GetH264 returns the payload as one NAL unit (symbolic build)",
+                    "time.Since returns a large value (no pacing sleep), time.After fires immediately", "harness implementations of the small client/downloader interfaces"],
+    "outside": ["MPEG-TS demuxing and 33-bit wrap (mediacommon TimeDecoder)", "rendition playlists processed by a second stream processor", "byte-range addressing (C11)"],
+    "runs": [{"name": "run.cli.fmp4", "files": CLIP, "fn": "VerifH_C10_fmp4", "workers": 16, "params_quick": {"MAXSEGS": 1, "MAXFRAGS": 2, "MAXSAMPLES": 2},
+              "params_thorough": {"MAXSEGS": 2, "MAXFRAGS": 2, "MAXSAMPLES": 2}, "reach": ["ran"], "budget_quick": 900, "budget_thorough": 7200, "qtimeout": 60000}],
+}
+CHECKS["C13"] = {
+    "technique": "the same real client stages on well-formed-but-unexpected parse results (every fMP4 codec kind, time scale 0, track-id permutations, empty fragments, absurd counts and values); engine panic / deadlock checks are the assertion",
+    "bounds": {"quick": {"focus groups": "codec kinds (8) alone or beside video; time scales {90000,0,1,2^32-1}; init/fragment track ids in 1..4; 10..11 tracks; 0..2 fragments with/without tracks and samples",
+                         "values": "base times [0,2^40] or {2^64-1, 2^63, 2^62}; durations [0,2^24] or {2^32-1, 0}; PTS offsets [-2^20,2^20] or int32 extremes"},
+               "thorough": {"same": "same"}},
+    "assumptions": CHECKS["C10"]["assumptions"] + ["playlist bytes: Unmarshal totality and post-conditions are C15's subject; the client indexes only what those post-conditions guarantee"],
+    "outside": ["truncation inside mediacommon's parsers", "MPEG-TS payloads", "busy-loop freedom beyond: every loop iteration consumes a queue element or blocks (engine deadlock / step bound)"],
+    "runs": [{"name": "run.cli.fmp4.malformed", "files": CLIP, "fn": "VerifH_C13_fmp4", "workers": 16, "reach": ["ran"], "budget_quick": 900, "budget_thorough": 7200, "qtimeout": 10000}],
+}
